@@ -4,22 +4,49 @@ import json, os, sys
 sys.path.insert(0, os.path.dirname(os.path.dirname(os.path.abspath(__file__))))
 
 PY = '/venv/bin/python'
+E2E_NOTE = 'Trusted: vt/detsched.py (scheduler, threading/time shims, executor with ThreadPoolExecutor semantics), vt/fakes3.py (fake S3 + botocore body protocol), vt/fakefs.py (in-memory FS behind OSUtils), scaled ChunksizeAdjuster limits. Verdict = held on every generated case; evidence reports counts, classes and samples.'
+
+def e2e(text, tech, ref):
+    return dict(cat='exploration', ref=ref, text=text, note=E2E_NOTE,
+                technique='property-based testing: ' + tech)
+
 CHECKS = {
-    'C04': dict(
-        cat='exploration', ref='DESIGN.md 4/C04',
-        text='Schedule-, fault- and cancel-quantified search for deadlocks, '
-             'livelocks and unfinished futures on the real TransferManager '
-             'under a deterministic scheduler that owns every '
-             'synchronisation point; random-walk, PCT and bounded-preemption '
-             'schedules; re-entrant subscribers. Exploration is the right '
-             'level: the property quantifies over schedules, which become '
-             'generated inputs here.',
-        note='Trusted: vt/detsched.py (threading/time shims, executor with '
-             'ThreadPoolExecutor semantics), fake S3 and in-memory FS; '
-             'deadlock = no enabled thread; livelock = step budget exceeded '
-             'twice (10x the second time).',
-        technique='property-based testing: Hypothesis-generated programs + '
-                  'schedules, deadlock/livelock oracle'),
+    'C01': e2e('Generated uploads/copies (all source kinds, boundary sizes, configs, client-level body rewinds, aws-chunked wrapper) x generated schedules on the real TransferManager; round-trip oracle through a fake S3 service plus CompleteMultipartUpload argument check.', 'Hypothesis cases + deterministic schedules, round-trip oracle', 'DESIGN.md 4/C01'),
+    'C02': e2e('Generated downloads to all destination kinds with per-attempt stream scripts (short reads, retryable faults at any byte) x schedules; oracle: destination equals object, sequential writes on non-seekable streams, GETs per range within the attempt budget.', 'Hypothesis cases + fault scripts + schedules, round-trip oracle', 'DESIGN.md 4/C02'),
+    'C03': dict(cat='fault_enumeration', ref='DESIGN.md 4/C03', note=E2E_NOTE,
+                text='Generated fault plans (k-th call of each S3 operation before/after effect, source reads, destination open/write/close/rename, on_queued/on_progress callbacks, stream faults within and beyond the retry budget) on every transfer type/mode x schedules; oracle: result() raises a delivered fault / RetriesExceededError over one / the cancellation error, never returns.',
+                technique='property-based testing: generated fault plans + schedules, exception-identity oracle'),
+    'C04': e2e('Schedule-, fault- and cancel-quantified search for deadlocks, livelocks and unfinished futures on the real TransferManager under a deterministic scheduler that owns every synchronisation point (random-walk, PCT, bounded-preemption schedules; re-entrant subscribers; Ctrl-C).', 'Hypothesis programs + schedules, deadlock/livelock oracle', 'DESIGN.md 4/C04'),
+    'C05': dict(cat='fault_enumeration', ref='DESIGN.md 4/C05', note=E2E_NOTE,
+                text='Multipart uploads/copies under generated fault plans (create/part/complete before or after effect, source reads, callbacks), cancels and schedules; oracle over the fake service multipart table (per upload id ordered log with begin/end steps): completed once xor aborted, nothing after abort, abort after all other calls returned, all before result() unblocks.',
+                technique='property-based testing: fault plans + cancels + schedules, history invariant over the multipart table'),
+    'C06': dict(cat='fault_enumeration', ref='DESIGN.md 4/C06', note=E2E_NOTE,
+                text='Path downloads under faults in open/write/close/rename and requests, cancels and schedules; the destination is checked after EVERY file-system mutation (each is a crash point) and the directory when the future is done.',
+                technique='property-based testing: fault plans + schedules, invariant checked at every file-system mutation'),
+    'C07': e2e('Every cancellation entry point (future.cancel from a second thread, shutdown(cancel, msg), exception / KeyboardInterrupt leaving the with-block, Ctrl-C while parked in result()/shutdown()) at generated steps x schedules; oracle on exception type+message, zero requests for not-started transfers, cleanups, racing success must be complete.', 'Hypothesis cancel points + schedules, outcome oracle', 'DESIGN.md 4/C07'),
+    'C08': e2e('Recording subscribers (1-3 per transfer, some raising, some supplying size) x all outcomes x schedules; oracle on callback steps versus the fake-S3 call log (once, ordered, after the work, result() not blocking, no progress after done).', 'Hypothesis cases + schedules, trace-order oracle', 'DESIGN.md 4/C08'),
+    'C09': e2e('Progress accounting under body rewinds, suppressed signing reads, aws-chunked wrapper, stream retries and a scaled aggregation threshold; oracle sum==size, running sum in [0,size]; plus a ReadFileChunk reference-model machine (read/seek/enable/disable sequences).', 'Hypothesis cases + reference cursor model', 'DESIGN.md 4/C09'),
+    'C10': e2e('2-6 concurrent transfers with limits biased to 1 under PCT/walk/preempt schedules; oracle at every step from begin/end events and instrumented executors (in-flight requests, stage of each request, queue occupancy, executor wiring, single writer).', 'Hypothesis cases + schedules, step-wise counting oracle', 'DESIGN.md 4/C10'),
+    'C11': e2e('Stream uploads and non-seekable ranged downloads sharing a manager with in-memory limits 1-3; step-wise oracle on bytes read awaiting a finished part, download window per transfer and in sum, pending writes.', 'Hypothesis cases + schedules, step-wise bound oracle', 'DESIGN.md 4/C11'),
+    'C12': dict(cat='exploration', ref='DESIGN.md 4/C12', note='Reference model written from the statement; sequential histories run on an inline shim (blocking = failure), blocking histories and quiescence under vt/detsched.py. Exhaustive only for the stated depth/tags/capacities.',
+                text='SlidingWindowSemaphore/TaskSemaphore versus a reference model: exhaustive DFS over all operation sequences (<=3 tags, capacity 1..3) to depth 7 (quick) / 9 (thorough), Hypothesis sequences beyond, blocking histories under the deterministic scheduler, and quiescence of every manager semaphore after end-to-end runs.',
+                technique='model-based testing: exhaustive DFS + Hypothesis sequences vs reference model; schedule search for lost wake-ups'),
+    'C13': dict(cat='exploration', ref='DESIGN.md 4/C13', note='Virtual time (s3transfer.bandwidth.time is the scheduler clock). Burst constant K=3 per stream (DESIGN 3.8). Trusted: scheduler, fake S3 for the E2E wiring class.',
+                text='Discrete-event simulation in virtual time on the real LeakyBucket/BandwidthLimitedStream (1-8 streams, adversarial read sizes/think times, late wake-ups, streams abandoned while parked) with an oracle over the history of reads and requested sleeps; plus end-to-end transfers with max_bandwidth set.',
+                technique='property-based testing: generated virtual-time histories, history oracle (window rate bound, bounded single wait, no delay below limit)'),
+    'C14': dict(cat='exploration', ref='DESIGN.md 4/C14', note='Exhaustive on the scaled arithmetic domain only; real scale is sampled at boundaries; end-to-end requests from the TransferManager with a scaled adjuster.',
+                text='Part-planning validity predicates: exhaustive scaled domain for calculate_num_parts/calculate_range_parameter/ChunksizeAdjuster, boundary-biased real-scale points to 5 TiB / 6 GiB, and the Range/CopySourceRange/PartNumber/body sizes of requests actually issued.',
+                technique='exhaustive enumeration + property-based testing with validity predicates'),
+    'C15': dict(cat='exploration', ref='DESIGN.md 4/C15', note='Differential oracle = input shapes of the installed botocore S3 service model; stated exceptions (copy HeadObject mapping, full-object checksums, CRC32 default) written from the property.',
+                text='Exhaustive over the finite cell space (method x mode x size discovered/provided x request_checksum_calculation x every allowed argument alone, every checksum-family subset, all together; every foreign S3 member name rejected) on the TransferManager, differential against botocore operation shapes.',
+                technique='exhaustive enumeration, differential against the botocore service model'),
+    'C16': dict(cat='exploration', ref='DESIGN.md 4/C16', note='Histories are those the download loop can produce; exhaustive for the stated byte/part/attempt bound only. E2E part trusts scheduler and fake S3.',
+                text='DeferQueue versus a set-of-delivered-positions reference model: exhaustive over all delivery histories up to n=5 (quick) / n=6 (thorough) bytes, <=3 parts, <=2 attempts; Hypothesis histories to 40 bytes; end-to-end non-seekable downloads under stream retries.',
+                technique='model-based testing: exhaustive history enumeration + Hypothesis vs reference model'),
+    'C17': dict(cat='exploration', ref='DESIGN.md 4/C17', note='Reference state machine written from the statement; announce_done generated only after a terminal status; concurrent part under vt/detsched.py with sys.monitoring line preemption.',
+                text='TransferCoordinator/TransferFuture versus a reference state machine: exhaustive over all operation sequences to length 6 (quick) / 7 (thorough) over 11 operations, Hypothesis sequences to 30, 2-3 thread histories with line-level preemption (done() monotone, linearizable final state) including a systematic single preemption at every executed line for all 2-thread one-operation scenarios.',
+                technique='model-based testing: exhaustive sequences + linearizability check under controlled schedules'),
+    'C18': e2e('2-4 concurrent transfers with a drawn subset failing or cancelled, then a fresh transfer and/or shutdown; oracle: untouched transfers succeed byte-exact, nothing happens after shutdown returns, all semaphores back at capacity.', 'Hypothesis cases + fault plans + schedules, isolation/barrier oracle', 'DESIGN.md 4/C18'),
 }
 NOT_YET = 'check not built yet in this working session (in progress; see DESIGN.md 4 for the plan)'
 
